@@ -250,3 +250,127 @@ Example parse_tree_nonvacuous :
   exists s, parse_statement (lex "select * where key = 'a' order by key desc limit 2, 3;") = SOk s /\
             stmt_positions s = [0; 9; 25; 43; 0; 0; 19; 15; 21; 34].
 Proof. eexists. split; vm_compute; reflexivity. Qed.
+
+(* ---------------------------------------------------------------- part 2 over the parser AND
+   checker twins (PA): Model/ParseCheck.v joins the parser twin to the checker twin of C14
+   (Model/Checker.v): [parse_check fo q] = Lexer.lex, the statement parser run with the REAL
+   mid-parse tests ([real_hooks]: twin of checkFieldCycles, findFieldInSelect for ORDER BY /
+   GROUP BY items, the aggregate-name test, Check of the GROUP BY fields, all computed by the
+   checker twin), [to_check], Checker.build_check (Check / Validate / ValidateFields, then the
+   call validation of optimizer.go) and the three tests of buildFinalPlan -- i.e. everything
+   Optimizer.BuildPlan does with a query TEXT before the first plan node is initialised.  The
+   premise [hooks_ok] of the parser-level theorems above is DISCHARGED for the real tests, the
+   abstract provenance model (Model/ErrPos.v) is no longer needed for the type checker.
+   [fo] is the float structure (no law assumed; it only reads the divisor literal of `/`). *)
+From KV Require Import Model.Value Model.ParseCheck Proofs.ParseCheckProofs.
+From KV Require Model.Checker.
+
+(* the full statements of the header, for EVERY query text and every rejection (syntax error,
+   mid-parse test, checker, call validation, plan builder): the position is -1, 0 or the offset
+   of one of the query's tokens, AND it is -1 or lies inside the query *)
+Theorem err_pos_is_token_start_and_in_query : forall (fo : fops) (q : string) (k : pckind) (z : Z),
+  parse_check fo q = PCErr k z ->
+  pos_is_token_start (zstarts (lex q)) z = true /\ pos_in_query q z = true.
+Proof. exact parse_check_err_position_thm. Qed.
+Print Assumptions err_pos_is_token_start_and_in_query.
+
+Theorem err_pos_is_token_start : forall (fo : fops) (q : string) (k : pckind) (z : Z),
+  parse_check fo q = PCErr k z ->
+  z = (-1)%Z \/ pos_is_token_start (zstarts (lex q)) z = true.
+Proof. exact parse_check_err_token_start_thm. Qed.
+Print Assumptions err_pos_is_token_start.
+
+Theorem err_pos_in_query : forall (fo : fops) (q : string) (k : pckind) (z : Z),
+  parse_check fo q = PCErr k z -> pos_in_query q z = true.
+Proof. exact parse_check_err_in_query_thm. Qed.
+Print Assumptions err_pos_in_query.
+
+(* the same in plain arithmetic *)
+Theorem err_pos_arith : forall (fo : fops) (q : string) (k : pckind) (z : Z),
+  parse_check fo q = PCErr k z ->
+  z = (-1)%Z \/
+  ((0 <= z < Z.of_nat (String.length q))%Z /\ (z = 0%Z \/ In z (zstarts (lex q)))).
+Proof. exact parse_check_err_arith_thm. Qed.
+Print Assumptions err_pos_arith.
+
+(* accepted statements: every Pos stored in the parser's statement (statement, clauses, all
+   nodes of all trees) and in the checked trees (after name resolution: field references
+   included) is 0 or a token offset, inside the query *)
+Theorem accepted_positions_are_token_starts :
+  forall (fo : fops) (q : string) (s : StmtParser.stmt) (c : Checker.stmt) (a : bool),
+  parse_check fo q = PCOk s c a ->
+  parse_real fo (lex q) = SOk s /\
+  Forall (prov (lex q)) (stmt_positions s) /\
+  Forall (prov (lex q)) (cstmt_positions c) /\
+  Forall (fun p => pos_in_query q (Z.of_nat p) = true) (stmt_positions s ++ cstmt_positions c).
+Proof. exact parse_check_ok_positions_thm. Qed.
+Print Assumptions accepted_positions_are_token_starts.
+
+(* the composite twin is total: a statement, a positional rejection or "outside the model" *)
+Theorem parse_check_total : forall (fo : fops) (q : string),
+  match parse_check fo q with PCPanic | PCFuel | PCOther => False | _ => True end.
+Proof. exact parse_check_total_thm. Qed.
+Print Assumptions parse_check_total.
+
+(* the ingredients.  (a) the checker invents no position: its error is the Pos of a node of the
+   statement it was given (or of an ORDER BY item), and every Pos of the checked statement is
+   one of the input statement *)
+Theorem checker_err_position : forall (fo : fops) (s : Checker.stmt) (p : nat),
+  Checker.build_check fo true s = Err (ESyntax p) -> In p (cstmt_positions s).
+Proof. exact build_check_err_position. Qed.
+Print Assumptions checker_err_position.
+
+Theorem checker_keeps_positions : forall (fo : fops) (s s2 : Checker.stmt),
+  Checker.build_check fo true s = Ok s2 -> incl (cstmt_positions s2) (cstmt_positions s).
+Proof. exact build_check_keeps_positions. Qed.
+Print Assumptions checker_keeps_positions.
+
+(* (b) the conversion hands the trees over unchanged *)
+Theorem to_check_preserves_positions : forall (s : StmtParser.stmt) (c : Checker.stmt),
+  to_check s = Some c -> incl (cstmt_positions c) (stmt_positions s).
+Proof. exact to_check_positions. Qed.
+Print Assumptions to_check_preserves_positions.
+
+(* ... and gives None, for a statement the parser returned, exactly for a SELECT with GROUP BY one
+   of whose fields uses the name of a field (parseGroupBy then rewrites fields in place before
+   WHERE and ValidateFields see them; the checker twin models fields that are checked once) *)
+Theorem to_check_none_exactly : forall (h : hooks) (ts : list token) (s : StmtParser.stmt),
+  parse_with h ts = SOk s ->
+  (to_check s = None <->
+   exists x, s = StSelect x /\ s_group x <> None /\
+             existsb (uses_field_name (s_names x)) (s_fields x) = true).
+Proof. exact to_check_none_iff. Qed.
+Print Assumptions to_check_none_exactly.
+
+(* (c) the real mid-parse tests report positions of the nodes they are given; the cycle test's
+   fuel never runs out *)
+Theorem real_hooks_satisfy_premise : forall (fo : fops) (Q : nat -> Prop), hooks_ok Q Q (real_hooks fo).
+Proof. exact real_hooks_ok. Qed.
+Print Assumptions real_hooks_satisfy_premise.
+
+Theorem cycle_test_fuel_enough : forall names fields, check_cycles names fields <> CFuel.
+Proof. exact check_cycles_fuel_enough. Qed.
+Print Assumptions cycle_test_fuel_enough.
+
+(* non-vacuity, for every float structure: a rejection by the type checker (operands of = of
+   different kinds: position of the operator), by a mid-parse test (field defined through
+   itself: the name), by the call validation (argument count: the call), by the plan builder
+   (statement position 0; end of input), by a mid-parse test behind leading blanks, by the
+   syntax; an accepted statement with an alias used inside another field and in WHERE *)
+Example parse_check_rejections_nonvacuous : forall fo : fops,
+  parse_check fo "select * where key = 1" = PCErr KCheck 19%Z /\
+  parse_check fo "select upper(u) as u where key = 'a'" = PCErr KMidParse 13%Z /\
+  parse_check fo "select * where upper(key, key) = 'A'" = PCErr KCalls 15%Z /\
+  parse_check fo "select key where key ^= 'k' group by key" = PCErr KPlan 0%Z /\
+  parse_check fo "select count(1), key where key ^= 'k'" = PCErr KPlan (-1)%Z /\
+  parse_check fo "   select key where value = 'a' order by kk" = PCErr KMidParse 41%Z /\
+  parse_check fo "select * where key = 'a' &" = PCErr KSyntax (-1)%Z /\
+  parse_check fo "select zq0 + 1 as zq2, zq1 + 'x' as zq0, key as zq1, zq2 * 2 as zq3 where key > 'a'"
+    = PCErr KCheck 53%Z.
+Proof. intros fo. repeat split; vm_compute; reflexivity. Qed.
+
+Example parse_check_accepted_nonvacuous : forall fo : fops,
+  exists s c, parse_check fo "select key as k, upper(k) as u where u = 'A' order by k limit 3" = PCOk s c false /\
+              stmt_positions s = [0; 31; 45; 56; 7; 17; 17; 23; 39; 37; 41; 54] /\
+              cstmt_positions c = [7; 17; 17; 23; 7; 39; 37; 17; 17; 23; 41; 54].
+Proof. intros fo. eexists. eexists. split; [vm_compute; reflexivity|]. split; vm_compute; reflexivity. Qed.
